@@ -1005,13 +1005,13 @@ func (m *Machine) errorsIs(err, target Iface) Value {
 				}
 			}
 		}
-		if im := m.prog.LookupMethod(err.T, nil, "Is"); im != nil && im.Signature.Params().Len() == 1 {
+		if im := m.lookupMethod(err.T, "Is"); im != nil && im.Signature.Params().Len() == 1 {
 			r := m.call(im, []Value{err.V, target}, nil).(*Term)
 			if m.branch(r) {
 				return tTrue
 			}
 		}
-		um := m.prog.LookupMethod(err.T, nil, "Unwrap")
+		um := m.lookupMethod(err.T, "Unwrap")
 		if um == nil || um.Signature.Results().Len() != 1 {
 			return tFalse
 		}
@@ -1177,4 +1177,13 @@ func (m *Machine) timeModel(name string, args []Value) (Value, bool) {
 		return m.nameTerm(sat), true
 	}
 	return nil, false
+}
+
+// lookupMethod returns the exported method name of type t, or nil when t has no such method.
+func (m *Machine) lookupMethod(t types.Type, name string) *ssa.Function {
+	sel := m.prog.MethodSets.MethodSet(t).Lookup(nil, name)
+	if sel == nil {
+		return nil
+	}
+	return m.prog.MethodValue(sel)
 }
